@@ -171,3 +171,13 @@ Example C11_mux_end_to_end_example :
   contiguous_list (mux_read true ex_mux_in) = true /\
   map fs_dur (mux_read true ex_mux_in) = [10; 10] /\ map fs_flags (mux_read true ex_mux_in) = [33554432; 65536].
 Proof. vm_compute. repeat split. Qed.
+
+(* ---- Resegment on a file: every sample of every trun of every input fragment is conserved (the
+   first-trun count the code keeps for bookkeeping plays no role in what is written) ---- *)
+Theorem C11_resegment_file_conserves :
+  forall (d : N) (frags : list (list (list fsample))) (segs : list (list fsample)),
+  resegment_file d frags = Ok segs ->
+  concat segs = concat (map (@concat _) frags) /\
+  exists first others, segs = first :: others /\ segs_start_ok d 1 others.
+Proof. exact resegment_file_conserves. Qed.
+Print Assumptions C11_resegment_file_conserves.
